@@ -78,11 +78,15 @@ pub enum FilterFn {
     Less(i64),
     /// keep v >= t
     GreaterEq(i64),
+    /// keep v with v mod m < (loop state) mod m: the kept set changes from round to round
+    /// (outside loops the state is 0: nothing is kept)
+    StateMod(i64),
 }
 
 impl FilterFn {
-    pub fn keep(&self, v: i64) -> bool {
+    pub fn keep(&self, v: i64, state_acc: i64) -> bool {
         match *self {
+            FilterFn::StateMod(m) => v.rem_euclid(m.max(1)) < state_acc.rem_euclid(m.max(1)),
             FilterFn::ModNe(k, r) => v.rem_euclid(k.max(1)) != r,
             FilterFn::Less(t) => v < t,
             FilterFn::GreaterEq(t) => v >= t,
